@@ -282,3 +282,8 @@ where
     };
     e
 }
+
+/// A marker every type implements: lets generated definitions carry a non-trivial trait bound on a
+/// parameter (the derive macro copies such bounds onto the parameter's SerType / DeserType).
+pub trait Mark {}
+impl<T: ?Sized> Mark for T {}
